@@ -1,3 +1,4 @@
+pub mod cob;
 pub mod service;
 
 /// Scratch directory for one case: on tmpfs when available (sqlite and git
